@@ -276,7 +276,7 @@ def run(F, R, tier):
 
     # ---------------- C16-c ------------------------------------------------
     ex = F.body("symbols::cross_module::exports_and_re_exports_inner")
-    ins = [n for n in ex["_nodes"] if n.get("k") == "MethodCall" and n["name"] == "insert" and peel(n["recv"]).get("res") == "local" and tyc(F, n["recv"], "IndexMap<std::string::String, symbols::cross_module::ResolvedExportOrReExportAllPath")]
+    ins = [n for n in ex["_nodes"] if n.get("k") == "MethodCall" and n["name"] in ("insert", "extend") and peel(n["recv"]).get("res") == "local" and tyc(F, n["recv"], "IndexMap<std::string::String, symbols::cross_module::ResolvedExportOrReExportAllPath")]
     R.floor("C16-c inserts into the resolved export map", len(ins), 2)
     star_ins = [n for n in ins if any((ctor_of(x) or "").endswith("::ReExportAllPath") for x in walk(n))]
     R.ob("C16-c", "star re-export insert found", len(star_ins) == 1, "shape changed", ex["file"])
